@@ -58,6 +58,10 @@ RBody(tab, b, i, inq) ==
                                    !.f = @ + (IF e.s = FOR THEN 1 ELSE 0), !.n = @ + (IF e.s = NEXT THEN 1 ELSE 0),
                                    !.r = @ + (IF e.s = REPEAT THEN 1 ELSE 0), !.u = @ + (IF e.s = UNTIL THEN 1 ELSE 0)]
         [] e.k = "ln" -> IF Len(b) - i < 3 THEN [st |-> "bad", out |-> <<>>, f |-> 0, n |-> 0, r |-> 0, u |-> 0]
+                         \* the three bytes of a reference are 0x40..0x7F in every program BASIC writes; when one of them is a quote
+                         \* or a token value, what it does to the string state and the loop count is not specified
+                         ELSE IF \E k \in 1..3 : b[i + k] = QUOTE \/ b[i + k] >= 128
+                              THEN [st |-> "unspec", out |-> <<>>, f |-> 0, n |-> 0, r |-> 0, u |-> 0]
                          ELSE LET t == RBody(tab, b, i + 4, FALSE) IN [t EXCEPT !.out = Dec(Target(b[i + 1], b[i + 2], b[i + 3])) \o @]
         [] e.k \in {"c6", "c7", "c8"} ->
                          IF i = Len(b) THEN [st |-> "bad", out |-> <<>>, f |-> 0, n |-> 0, r |-> 0, u |-> 0]
@@ -107,7 +111,9 @@ RLittle(tab, listo, inp, i, indent) ==
                      ELSE IF i + 2 = Len(inp) THEN [st |-> "ok", out |-> <<>>] ELSE [st |-> "unspec", out |-> <<>>])
     ELSE IF len < 3 THEN [st |-> "bad", out |-> <<>>]
     ELSE IF i + 2 > Len(inp) THEN [st |-> "bad", out |-> <<>>]
-    ELSE IF len = 3 THEN [st |-> "unspec", out |-> <<>>]                 \* a line without even its terminator
+    ELSE IF len = 3 THEN                                                 \* a line without even its terminator: how it is listed is
+         LET rest == RLittle(tab, listo, inp, i + 3, indent) IN          \* not specified, but what follows it still has to be a program
+         [st |-> IF rest.st = "ok" THEN "unspec" ELSE rest.st, out |-> <<>>]
     ELSE IF i + len - 1 > Len(inp) THEN [st |-> "bad", out |-> <<>>]
     ELSE IF inp[i + len - 1] # CR THEN [st |-> "bad", out |-> <<>>]
     ELSE LET num == inp[i + 1] + 256 * inp[i + 2]
@@ -223,6 +229,12 @@ BePrefix == {<<13, 0, 10, 8>>, <<13, 1, 0, 7>>}          \* line headers announc
 BeSuffix == {<<>>, <<13, 255>>}
 LePrefix == {<<8, 10, 0>>, <<7, 0, 1>>}                   \* 4 / 3 body bytes + CR
 LeSuffix == {<<>>, <<13, 0, 255, 255>>, <<0, 255, 255>>}
+\* a line "FOR", then one line of exactly 5 body bytes, then a line "A" and the end marker: what the middle line's string, 0x8D and
+\* loop bytes do to the loop count shows in the indentation of the last line (Basic_*_str.cfg)
+BePrefix5 == {<<13, 0, 5, 5, 227, 13, 0, 10, 9>>}
+BeSuffixEnd == {<<13, 0, 20, 5, 65, 13, 255>>}
+LePrefix5 == {<<5, 5, 0, 227, 13, 9, 10, 0>>}
+LeSuffixEnd == {<<13, 5, 20, 0, 65, 13, 0, 255, 255>>}
 KwE(s) == [k |-> "kw", s |-> s]
 E(k) == [k |-> k, s |-> <<>>]
 TabSmall == [base |-> [b \in 0..255 |->
